@@ -76,6 +76,8 @@ def s19_tracevalidate(ctx):
             mode = rng.choice(modes)
             if k < 2 * len(modes):
                 mode = modes[k % len(modes)]  # every output location at least twice per run
+                if k < len(modes) and mode in ("existing", "prefix"):
+                    driver = "GPKG"  # a GeoPackage that already holds a layer of ANOTHER name at the output path: it must be replaced, not added to
             if mode == "samestem" and driver == "ESRI Shapefile":
                 driver = "GeoJSON" if k % 2 else "GPKG"
             tp, ap, names = build_inputs(rng, d, driver, with_crs, stem, empty_area)
